@@ -229,6 +229,16 @@ def composition(ctx):
         # target order must be a..f
         asg = [s for s in ast.walk(f) if isinstance(s, ast.Assign) and s.value is mm[0]]
         tgt = [ast.unparse(t) for t in asg[0].targets[0].elts] if asg and isinstance(asg[0].targets[0], ast.Tuple) else []
+        if asg and isinstance(asg[0].targets[0], ast.Name):
+            # product = matrix_multiply(...); self.a = product[0]; ... : the component stored into each field, in index order
+            pn = asg[0].targets[0].id
+            by_index = {}
+            for s2 in ast.walk(f):
+                if isinstance(s2, ast.Assign) and len(s2.targets) == 1 and isinstance(s2.value, ast.Subscript) and isinstance(s2.value.value, ast.Name) and s2.value.value.id == pn \
+                        and isinstance(s2.value.slice, ast.Constant) and isinstance(s2.value.slice.value, int):
+                    by_index.setdefault(s2.value.slice.value, []).append(ast.unparse(s2.targets[0]))
+            if sorted(by_index) == list(range(6)) and all(len(v) == 1 for v in by_index.values()):
+                tgt = [by_index[i][0] for i in range(6)]
         ctx.ob("R04.2", qual, got == want and tgt == ["self.%s" % k for k in MS.F6], "multiplies (%s), stores %s" % (got, tgt), f.lineno,
                "pre-composition applies the new matrix first, post-composition last; the product is stored field by field")
     f = ctx.fn("Matrix.post_cat", "R04.2")
